@@ -281,7 +281,8 @@ void rec_reset(void);
 /* nesting chains (C01 deep stage, C19) */
 enum { CH_TAG, CH_DEFARR, CH_INDEFARR, CH_DEFMAP_KEY, CH_DEFMAP_VAL, CH_INDEFMAP_KEY, CH_INDEFMAP_VAL, CH_MIXED, CH_TAG_WIDE, CH_NKINDS };
 extern const char* const chain_names[CH_NKINDS];
-/* leaf: 0 scalar, 1 chunked byte string, 2 chunked text string (each one more open level).
+/* leaf: 0 scalar, 1 chunked byte string, 2 chunked text string (each one more open level),
+ * 3 empty definite array, 4 empty definite map (complete at their head: no additional level).
  * open_end[k] (k = 1..levels) receives the offset just past the head that opens level k. */
 void gen_chain(int kind, size_t depth, int leaf, struct vh_buf* out, size_t* open_end);
 
